@@ -88,7 +88,12 @@ func (e *Engine) solveAll(results []*FuncResult, wantModel bool) {
 				defer wg.Done()
 				q := o.Query(r.Prelude, false)
 				o.QueryLen = len(q)
-				sr := e.solver.Solve(q, true)
+				var sr SolveResult
+				if o.Expect == "sat" {
+					sr = e.solver.SolveT(q, 2)
+				} else {
+					sr = e.solver.Solve(q, true)
+				}
 				o.Status = sr.Status
 				o.Solver = sr.Solver
 				o.Time = sr.Time
